@@ -61,6 +61,17 @@ def wrap(lon):
 # --------------------------------------------------------------------------------------
 
 
+def _planar_valid(lon, lat):
+    """is the ring, drawn with STRAIGHT sides in the lon/lat plane, a valid polygon?  (a wide face that is a
+    perfectly good simple polygon on the sphere need not be)"""
+    from shapely import Polygon
+
+    try:
+        return bool(Polygon(np.stack([np.asarray(lon, dtype=float), np.asarray(lat, dtype=float)], axis=1)).is_valid)
+    except Exception:  # noqa: BLE001
+        return False
+
+
 class Truth:
     """corner coordinates of every face in every coordinate system the exporters can use, the
     crossing / NaN flags and the piece counts (PARAMETERS of the Lean model)"""
@@ -76,6 +87,7 @@ class Truth:
         self.raw, self.prj, self.am, self.nan, self.pieces, self.usable = [], [], [], [], [], []
         self.pole = []
         self.cw = []
+        self.lonlat_bad = []
         pc = ccrs.PlateCarree()
         for p in range(NPROJ):
             cl = CENTRAL[p]
@@ -102,16 +114,18 @@ class Truth:
                                  or np.any(np.abs(np.abs(slon[f]) - 180.0) < 1e-6)))
             self.am.append(am)
             self.pole.append(pole)
-            cw = []
+            cw, bad = [], []
             for i, f in enumerate(self.faces):
-                # clockwise in the lon/lat plane (longitudes continued along the ring)
+                # clockwise / self-intersecting in the lon/lat plane (longitudes continued along the ring)
                 l = [float(slon[f[0]])]
                 for j in range(1, len(f)):
                     l.append(l[-1] + ((slon[f[j]] - slon[f[j - 1]] + 180.0) % 360.0 - 180.0))
                 y = self.lat[f]
                 a2 = sum(l[j] * y[(j + 1) % len(f)] - l[(j + 1) % len(f)] * y[j] for j in range(len(f)))
                 cw.append(bool(a2 < 0 and not pole[i]))
+                bad.append(bool(not pole[i] and not _planar_valid(l, y)))
             self.cw.append(cw)
+            self.lonlat_bad.append(bad)
             self.nan.append([bool(p and np.isnan(xy[f]).any()) for f in self.faces])
             self.pieces.append(None)
         self.rings = {}
@@ -194,7 +208,8 @@ class Truth:
 
         return dict(n_face=self.n, n_node=len(self.lon), sizes=dict(Counter(len(f) for f in self.faces)),
                     crossing=[int(sum(a)) for a in self.am], nan=[int(sum(a)) for a in self.nan],
-                    clockwise=[int(sum(a)) for a in self.cw])
+                    clockwise=[int(sum(a)) for a in self.cw],
+                    lonlat_self_intersecting=[int(sum(a)) for a in self.lonlat_bad])
 
 
 def sph_area(ring):
@@ -740,8 +755,13 @@ def signature_fresh(t, op, o, clauses):
         s += f"/engine={ENG[op['eng']]}"
     s += "/" + clause_sig(o, clauses)
     if PE[op["pe"]] == "split" and op["kind"] in (2, 3):
-        # the known PolyCollection 'split' finding needs a face that is clockwise in the lon/lat plane
-        s += "/grid:clockwise=" + ("yes" if any(t.cw[op["proj"]]) else "no")
+        # the known PolyCollection 'split' finding (EVERY face goes through antimeridian.fix_polygon(fix_winding=False))
+        # needs a face that is irregular in the lon/lat plane: self-intersecting there -> fix_polygon raises;
+        # clockwise there -> the face comes back as the whole globe
+        if o["err"] and "Fixed-polygon-is-invalid" in s:
+            s += "/grid:lonlat-self-intersecting-face=" + ("yes" if any(t.lonlat_bad[op["proj"]]) else "no")
+        else:
+            s += "/grid:clockwise=" + ("yes" if any(t.cw[op["proj"]]) else "no")
     if PE[op["pe"]] == "ignore" and op["proj"] != 0:
         # what the known 'ignore'+projection findings depend on
         p = op["proj"]
